@@ -53,6 +53,10 @@ Conforms ==
     /\ used = Shift(exp.used) /\ pubDoc = Shift(exp.pubDoc) /\ Singles = Shift(exp.pubRel)
     /\ Ranges \subseteq {<<base + exp.ctr + 1, ctr, 2>>}
 
+(* pass P reports each failure (<<"VIOL", predicate, line>>) without stopping *)
+Viol(name, holds) == holds \/ PrintT(<<"VIOL", name, l>>)
+ReportP == Viol("Monotone", Monotone) /\ Viol("DocAccounted", TDocAccounted)
+
 Progress == Mark(l)
 Accept == PrintHWM
 =============================================================================
